@@ -145,8 +145,8 @@ pub fn run(ctx: &mut Ctx) {
                 if let ConeT::NonnegativeConeT(_) = c {
                     if let Some(i) = r.clone().next() {
                         p_user.b[i] = 1e30;
+                        break;
                     }
-                    break;
                 }
             }
         }
